@@ -84,7 +84,7 @@ theorem recvGoAwayFrame_fails_all (s s' : Streams) (hg : Good s) (last : Nat) (r
   intro e he a ha hloc hsel
   have hstep : Step none s s' := (recvGoAwayFrame_acc last reason debug (Step.refl none s)).of_fst hok
   have hkeep : KS s s' := (k_recvGoAwayFrame last reason debug (GStep.refl s)).of_fst hok
-  rcases (recvGoAwayFrame_cover s s' hg.ids last reason debug hok).2.2.2 e he a ha
+  rcases (recvGoAwayFrame_cover s s' hg.ids last reason debug hok).2.2.2.1 e he a ha
       ((sel_iff s last a).mpr ⟨hloc, hsel⟩) with hn | ⟨b, hb, hf⟩
   · exact Or.inl hn
   · right
@@ -107,7 +107,8 @@ theorem recvGoAwayFrame_keeps_others (s s' : Streams) (hg : Good s) (last : Nat)
                      sendTask := b.sendTask, openTask := b.openTask, sendCapacityInc := b.sendCapacityInc,
                      isPendingSendCapacity := b.isPendingSendCapacity, isPendingSend := b.isPendingSend } ∧
         SlotStep (newWakes s s') a.sendTask b.sendTask ∧ SlotStep (newWakes s s') a.openTask b.openTask ∧
-        (a.sendCapacityInc = true → b.sendCapacityInc = true) := by
+        (a.sendCapacityInc = true → b.sendCapacityInc = true) ∧
+        (∀ e ∈ s.store.ids, e.2 = k → e ∈ s'.store.ids) := by
   have hcov := recvGoAwayFrame_cover s s' hg.ids last reason debug hok
   refine ⟨hcov.2.1, fun k a ha hns => ?_⟩
   have hstep : Step none s s' := (recvGoAwayFrame_acc last reason debug (Step.refl none s)).of_fst hok
@@ -115,7 +116,8 @@ theorem recvGoAwayFrame_keeps_others (s s' : Streams) (hg : Good s) (last : Nat)
   rcases hstep.keep k a (hg.bounded.get? ha) ha with hn | ⟨b', hb', hs⟩
   · rw [hn] at hb; cases hb
   · rw [hb'] at hb; cases hb
-    exact ⟨b, hb', hu.eq, hs.sendTask, hs.openTask, hs.capKeep⟩
+    exact ⟨b, hb', hu.eq, hs.sendTask, hs.openTask, hs.capKeep,
+      fun e he hek => hcov.2.2.2.2 e he a (by rw [hek]; exact ha) (fun h => hns ((sel_iff s last a).mp h))⟩
 
 -- ===================================================================== a concrete history (client)
 
